@@ -203,9 +203,29 @@ for root in ('l', 'm'):
             ok = ok and note('selected node', got is not None and got[0] is exp[0][0]) and same('path', tx(got[1]), tx(exp[0][1]))
         else:
             ok = ok and note('absent', got is None)
+        expv = exp[0][0] if exp else None
+        ok = ok and note('Data.get(*bare parts)', Data(doc).get(root, prim) is expv)
+        ok = ok and note('get_data without paths', DataPath(root, prim).get_data(doc) is expv)
 return ok
 """
         out.append(mk_case(f"c03.history.{n}", [("u1", U), ("u2", "int")], body, pre=[f"BU({L}, u1, u2)"], stubs=["sym_repr"]))
+    # every entry point, with and without paths, for a symbolic (possibly negative / out of range) int part
+    body = """
+doc = {'xs': [u1, u2, 5], 'm': {-1: u1, 2: u2}, 'n': [[u2, 7], {'x': [u1]}]}
+ok = True
+for parts in (('xs', i), ('m', i), ('n', i, 0), ('n', 0, i), ('n', i, 'x', 0)):
+    PT = tuple(('prim', p) for p in parts)
+    exp = ref_walk(PT, doc)
+    expv = exp[0][0] if exp else None
+    ok = ok and note('get_data(raw)', DataPath(*parts).get_data(doc) is expv)
+    ok = ok and note('Data.get(*parts)', Data(doc).get(*parts) is expv)
+    ok = ok and note('Data.get(path)', Data(doc).get(DataPath(*parts)) is expv)
+    ok = ok and note('bound path', DataPath(*parts, source_data=doc).get_data() is expv)
+    wp = DataPath(*parts).get_data(doc, return_paths=True)
+    ok = ok and note('with paths', (wp is None and not exp) or (wp is not None and len(exp) == 1 and wp[0] is expv and tx(wp[1]) == tx(exp[0][1])))
+return ok
+"""
+    out.append(mk_case("c03.entry.symbolic_int_everywhere", [("i", "int"), ("u1", U), ("u2", "int")], body, pre=[f"BU({L}, i, u1, u2)"], stubs=["sym_repr"]))
     for sh, d in [(("a", "c", "i"), "dm"), (("M", "c", "Lv"), "dm"), (("X", "X"), "dl"), (("i", "1", "j"), "dl"), (("Mk",), "dm"),
                   (("l", "L", "s"), "dm")] + ([] if ctx.quick else [(("X", "Xiv", "b"), "dm"), (("L", "M", "L"), "dl"), (("f1", "b"), "dk")]):
         out.append(entry_case(sh, d, L))
